@@ -43,13 +43,13 @@ func (fr *c18Frame) rootF() *c18Frame {
 	return fr
 }
 
-// c18WalkInfo describes a counted loop over a literal slice (`for _, x := range []T{a, b}`,
-// `for i := 0; i < len(lit)-1; i++ { … lit[i] … }`) that the graph unrolls.
-type c18WalkInfo struct {
+// c18Counter: an integer loop counter (phi whose incoming values are constants or itself ± a
+// constant) that indexes a small literal slice (or a slice parameter bound to one): the graph tracks
+// its value, which unrolls the loop whatever its form (range over slice / over int, classic for,
+// rotated or not).
+type c18Counter struct {
 	phi    *ssa.Phi
-	init   int64 // value of the phi on entry
-	ifi    *ssa.If
-	blocks map[*ssa.BasicBlock]bool // the loop
+	blocks map[*ssa.BasicBlock]bool // the loop the counter lives in
 }
 
 const c18MaxUnroll = 8
@@ -61,14 +61,30 @@ func (fr *c18Frame) path(p *Prog) string {
 	return fr.parent.path(p) + ">" + FuncName(p, fr.fn)
 }
 
+// c18Tag: what is known, in the caller, about the expanded call control last came back from:
+// the return site (so that every result — error, flag, enum, value — stays correlated with the
+// caller's branches and terms) and the nil-ness of the error result.
+type c18Tag struct {
+	call    *ssa.Call
+	ret     *c18Node // return node in the callee frame (nil when the callee has a single return)
+	nilness int8     // error result: 0 not known, 1 nil, 2 non-nil
+}
+
+func (t c18Tag) key() string {
+	id := -1
+	if t.ret != nil {
+		id = t.ret.id
+	}
+	return fmt.Sprintf("%p/%d/%d", t.call, id, t.nilness)
+}
+
 type c18Node struct {
 	id   int
 	fr   *c18Frame
 	in   ssa.Instruction // nil for exit nodes
 	post bool            // continuation of an expanded call after the callee returned
 	// knowledge about the error result of an expanded call of this frame, valid until the end of the block
-	tagCall *ssa.Call
-	tagNil  bool
+	tag c18Tag
 	// exit nodes (root frame only): "nil" / "err"; ret = the return they belong to
 	exit      string
 	ret       *c18Node
@@ -104,7 +120,9 @@ type c18Graph struct {
 	funcFields map[string]*ssa.Function
 	// interface-typed construction-time fields and the one concrete type they hold
 	ifaceFields map[string]types.Type
-	walks       map[*ssa.Function]map[*ssa.BasicBlock]*c18WalkInfo
+	counters    map[*ssa.Function]map[*ssa.BasicBlock][]*c18Counter
+	stateTypes  map[string]bool
+	mattersMemo map[*ssa.Function]bool
 }
 
 // target: the function a call instruction runs: the static callee, or the one function a
@@ -176,8 +194,8 @@ func (g *c18Graph) resolveFunc(fr *c18Frame, v ssa.Value, depth int) *ssa.Functi
 				return t
 			}
 		}
-		if el := c18LiteralElem(x, fr.iter); el != nil {
-			return g.resolveFunc(fr, el, depth+1)
+		if el, ef := g.literalElem(fr, x); el != nil {
+			return g.resolveFunc(ef, el, depth+1)
 		}
 		if fv, ok := x.X.(*ssa.FreeVar); ok {
 			if cell, ok := resolveFreeVar(fv).(*ssa.Alloc); ok {
@@ -208,50 +226,38 @@ func c18CellValue(cell *ssa.Alloc) ssa.Value {
 	return val
 }
 
-// c18ConstIndex evaluates an index expression under the bindings of the unrolled walks.
-func c18ConstIndex(v ssa.Value, iter map[*ssa.Phi]int64) (int64, bool) {
-	switch x := v.(type) {
-	case *ssa.Const:
-		if x.Value != nil {
-			return x.Int64(), true
+// lit: the elements of a slice value that is a literal in frame fr — directly, or a (variadic)
+// parameter bound to a literal at the call site of the frame — and the frame they are evaluated in.
+func (g *c18Graph) lit(fr *c18Frame, v ssa.Value) ([]ssa.Value, *c18Frame, bool) {
+	for depth := 0; depth < 6 && fr != nil; depth++ {
+		if els, ok := c18Varargs(v); ok {
+			return els, fr, true
 		}
-	case *ssa.Phi:
-		k, ok := iter[x]
-		return k, ok
-	case *ssa.BinOp:
-		if x.Op == token.ADD {
-			a, ok1 := c18ConstIndex(x.X, iter)
-			b, ok2 := c18ConstIndex(x.Y, iter)
-			return a + b, ok1 && ok2
+		pa, ok := v.(*ssa.Parameter)
+		if !ok || fr.site == nil || fr.parent == nil {
+			return nil, nil, false
+		}
+		args := fr.site.Call.Args
+		if fr.site.Call.IsInvoke() {
+			args = append([]ssa.Value{fr.site.Call.Value}, args...)
+		}
+		found := false
+		for i, q := range fr.fn.Params {
+			if q == pa && i < len(args) {
+				v, fr, found = args[i], fr.parent, true
+				break
+			}
+		}
+		if !found {
+			return nil, nil, false
 		}
 	}
-	return 0, false
+	return nil, nil, false
 }
 
-// c18LiteralElem: v = lit[i] where lit is a slice literal and i is known: the element value.
-func c18LiteralElem(v ssa.Value, iter map[*ssa.Phi]int64) ssa.Value {
-	u, ok := v.(*ssa.UnOp)
-	if !ok || u.Op != token.MUL {
-		return nil
-	}
-	ia, ok := u.X.(*ssa.IndexAddr)
-	if !ok {
-		return nil
-	}
-	els, ok := c18Varargs(ia.X)
-	if !ok {
-		return nil
-	}
-	k, ok := c18ConstExpr(ia.Index, iter)
-	if !ok || k < 0 || int(k) >= len(els) {
-		return nil
-	}
-	return els[k]
-}
-
-// c18ConstExpr evaluates an integer expression under the bindings of the unrolled loops; len of a
+// constExpr evaluates an integer expression in frame fr under the counter bindings; len of a
 // literal slice is its number of elements.
-func c18ConstExpr(v ssa.Value, iter map[*ssa.Phi]int64) (int64, bool) {
+func (g *c18Graph) constExpr(fr *c18Frame, v ssa.Value, iter map[*ssa.Phi]int64) (int64, bool) {
 	switch x := v.(type) {
 	case *ssa.Const:
 		if x.Value != nil && x.Value.Kind() == constant.Int {
@@ -261,8 +267,8 @@ func c18ConstExpr(v ssa.Value, iter map[*ssa.Phi]int64) (int64, bool) {
 		k, ok := iter[x]
 		return k, ok
 	case *ssa.BinOp:
-		a, ok1 := c18ConstExpr(x.X, iter)
-		b, ok2 := c18ConstExpr(x.Y, iter)
+		a, ok1 := g.constExpr(fr, x.X, iter)
+		b, ok2 := g.constExpr(fr, x.Y, iter)
 		if !ok1 || !ok2 {
 			return 0, false
 		}
@@ -276,7 +282,7 @@ func c18ConstExpr(v ssa.Value, iter map[*ssa.Phi]int64) (int64, bool) {
 		}
 	case *ssa.Call:
 		if builtinName(x) == "len" && len(x.Call.Args) == 1 {
-			if els, ok := c18Varargs(x.Call.Args[0]); ok {
+			if els, _, ok := g.lit(fr, x.Call.Args[0]); ok {
 				return int64(len(els)), true
 			}
 		}
@@ -284,14 +290,14 @@ func c18ConstExpr(v ssa.Value, iter map[*ssa.Phi]int64) (int64, bool) {
 	return 0, false
 }
 
-// c18EvalCond evaluates an integer comparison under the bindings.
-func c18EvalCond(cond ssa.Value, iter map[*ssa.Phi]int64) (truth, ok bool) {
+// evalCond evaluates an integer comparison under the bindings.
+func (g *c18Graph) evalCond(fr *c18Frame, cond ssa.Value, iter map[*ssa.Phi]int64) (truth, ok bool) {
 	cmp, ok := decodeCond(cond, true)
 	if !ok {
 		return false, false
 	}
-	a, ok1 := c18ConstExpr(cmp.X, iter)
-	b, ok2 := c18ConstExpr(cmp.Y, iter)
+	a, ok1 := g.constExpr(fr, cmp.X, iter)
+	b, ok2 := g.constExpr(fr, cmp.Y, iter)
 	if !ok1 || !ok2 {
 		return false, false
 	}
@@ -312,74 +318,96 @@ func c18EvalCond(cond ssa.Value, iter map[*ssa.Phi]int64) (truth, ok bool) {
 	return false, false
 }
 
-// walksOf: the counted loops over literal slices in fn, by header block.
-func (g *c18Graph) walksOf(fn *ssa.Function) map[*ssa.BasicBlock]*c18WalkInfo {
-	if w, ok := g.walks[fn]; ok {
-		return w
+// literalElem: v = s[i] where s is a literal slice in frame fr (see lit) and i is known: the
+// element value and the frame it is evaluated in.
+func (g *c18Graph) literalElem(fr *c18Frame, v ssa.Value) (ssa.Value, *c18Frame) {
+	u, ok := v.(*ssa.UnOp)
+	if !ok || u.Op != token.MUL || fr == nil {
+		return nil, nil
 	}
-	out := map[*ssa.BasicBlock]*c18WalkInfo{}
+	ia, ok := u.X.(*ssa.IndexAddr)
+	if !ok {
+		return nil, nil
+	}
+	els, ef, ok := g.lit(fr, ia.X)
+	if !ok {
+		return nil, nil
+	}
+	k, ok := g.constExpr(fr, ia.Index, fr.iter)
+	if !ok || k < 0 || int(k) >= len(els) {
+		return nil, nil
+	}
+	return els[k], ef
+}
+
+// countersOf: the loop counters of fn that index a small literal (or parameter) slice, by the
+// block that holds the phi.
+func (g *c18Graph) countersOf(fn *ssa.Function) map[*ssa.BasicBlock][]*c18Counter {
+	if c, ok := g.counters[fn]; ok {
+		return c
+	}
+	out := map[*ssa.BasicBlock][]*c18Counter{}
 	for _, b := range fn.Blocks {
-		if len(b.Instrs) == 0 {
-			continue
-		}
-		ifi, ok := b.Instrs[len(b.Instrs)-1].(*ssa.If)
-		if !ok {
-			continue
-		}
 		for _, in := range b.Instrs {
 			phi, ok := in.(*ssa.Phi)
 			if !ok {
 				break
 			}
-			// edges: one constant start value, every other edge phi+1
-			init, hasInit, hasStep, good := int64(0), false, false, true
-			for _, e := range phi.Edges {
-				if k, ok := e.(*ssa.Const); ok && k.Value != nil && k.Value.Kind() == constant.Int {
-					if hasInit && k.Int64() != init {
-						good = false
-					}
-					init, hasInit = k.Int64(), true
-					continue
-				}
-				if bo, ok := e.(*ssa.BinOp); ok && bo.Op == token.ADD && bo.X == ssa.Value(phi) {
-					if k, ok := bo.Y.(*ssa.Const); ok && k.Value != nil && k.Int64() == 1 {
-						hasStep = true
-						continue
-					}
-				}
-				good = false
-			}
-			if !good || !hasInit || !hasStep {
+			if bt, ok := phi.Type().Underlying().(*types.Basic); !ok || bt.Info()&types.IsInteger == 0 {
 				continue
 			}
-			// the test must be decidable from the index, and the loop must index a small literal slice by it
-			probe := map[*ssa.Phi]int64{phi: init}
-			if _, ok := c18EvalCond(ifi.Cond, probe); !ok {
+			good, hasConst, hasStep := true, false, false
+			for _, e := range phi.Edges {
+				switch x := e.(type) {
+				case *ssa.Const:
+					hasConst = true
+				case *ssa.BinOp:
+					_, yc := x.Y.(*ssa.Const)
+					if (x.Op == token.ADD || x.Op == token.SUB) && x.X == ssa.Value(phi) && yc {
+						hasStep = true
+					} else {
+						good = false
+					}
+				default:
+					good = false
+				}
+			}
+			if !good || !hasConst || !hasStep {
 				continue
 			}
 			blocks := c18LoopBlocks(b)
+			// it must index a literal slice, or a slice parameter (that a call site may bind to a literal)
 			uses := false
+			probe := map[*ssa.Phi]int64{phi: 0}
 			for lb := range blocks {
 				for _, li := range lb.Instrs {
-					if ia, ok := li.(*ssa.IndexAddr); ok {
-						if els, ok := c18Varargs(ia.X); ok && len(els) <= c18MaxUnroll {
-							if _, ok := c18ConstExpr(ia.Index, probe); ok {
-								uses = true
-							}
+					ia, ok := li.(*ssa.IndexAddr)
+					if !ok {
+						continue
+					}
+					if _, ok := g.constExpr(nil, ia.Index, probe); !ok {
+						continue
+					}
+					if els, ok := c18Varargs(ia.X); ok && len(els) <= c18MaxUnroll {
+						uses = true
+					}
+					if pa, ok := ia.X.(*ssa.Parameter); ok {
+						if _, isSlice := pa.Type().Underlying().(*types.Slice); isSlice {
+							uses = true
 						}
 					}
 				}
 			}
 			if uses {
-				out[b] = &c18WalkInfo{phi: phi, init: init, ifi: ifi, blocks: blocks}
+				out[b] = append(out[b], &c18Counter{phi: phi, blocks: blocks})
 			}
 		}
 	}
-	g.walks[fn] = out
+	g.counters[fn] = out
 	return out
 }
 
-// iterFrame: the frame of one iteration of an unrolled walk.
+// iterFrame: the frame of one iteration of an unrolled loop.
 func (g *c18Graph) iterFrame(fr *c18Frame, iter map[*ssa.Phi]int64) *c18Frame {
 	base := fr.rootF()
 	if len(iter) == 0 {
@@ -400,17 +428,23 @@ func (g *c18Graph) iterFrame(fr *c18Frame, iter map[*ssa.Phi]int64) *c18Frame {
 	return c
 }
 
-// enterBlock: the frame in which block b is executed when control arrives from frame fr.
-func (g *c18Graph) enterBlock(fr *c18Frame, b *ssa.BasicBlock) *c18Frame {
-	walks := g.walksOf(fr.fn)
+// enterBlock: the frame in which block `to` runs when control arrives from block `from` in frame fr:
+// counters of loops that are left are dropped, counters whose phi sits in `to` take the value of
+// the incoming edge (when it can be computed).
+func (g *c18Graph) enterBlock(fr *c18Frame, from, to *ssa.BasicBlock) *c18Frame {
+	all := g.countersOf(fr.fn)
+	if len(all) == 0 && len(fr.iter) == 0 {
+		return fr
+	}
 	iter := map[*ssa.Phi]int64{}
 	changed := false
 	for ph, v := range fr.iter {
-		// an index stays bound only inside its loop
 		inside := false
-		for _, w := range walks {
-			if w.phi == ph && w.blocks[b] {
-				inside = true
+		for _, cs := range all {
+			for _, c := range cs {
+				if c.phi == ph && c.blocks[to] {
+					inside = true
+				}
 			}
 		}
 		if inside {
@@ -419,13 +453,25 @@ func (g *c18Graph) enterBlock(fr *c18Frame, b *ssa.BasicBlock) *c18Frame {
 			changed = true
 		}
 	}
-	if w := walks[b]; w != nil {
-		if cur, ok := iter[w.phi]; ok {
-			iter[w.phi] = cur + 1 // back edge
-		} else {
-			iter[w.phi] = w.init
+	for _, c := range all[to] {
+		idx := -1
+		for i, p := range to.Preds {
+			if p == from {
+				idx = i
+			}
 		}
-		changed = true
+		if idx < 0 || idx >= len(c.phi.Edges) {
+			continue
+		}
+		if v, ok := g.constExpr(fr, c.phi.Edges[idx], fr.iter); ok && v <= c18MaxUnroll+2 && v >= -1 {
+			if old, had := iter[c.phi]; !had || old != v {
+				changed = true
+			}
+			iter[c.phi] = v
+		} else if _, had := iter[c.phi]; had {
+			delete(iter, c.phi)
+			changed = true
+		}
 	}
 	if !changed {
 		return fr
@@ -444,14 +490,15 @@ func (g *c18Graph) closureWrites(fn *ssa.Function) map[*ssa.Alloc]bool {
 
 const c18MaxDepth = 6
 
-func c18BuildGraph(p *Prog, tt *c18Terms, fn *ssa.Function, relevant func(*ssa.Function) bool, funcFields map[string]*ssa.Function, ifaceFields map[string]types.Type) *c18Graph {
-	g := &c18Graph{walks: map[*ssa.Function]map[*ssa.BasicBlock]*c18WalkInfo{}, funcFields: funcFields, ifaceFields: ifaceFields, p: p, tt: tt, index: map[string]*c18Node{}, frameOf: map[string]*c18Frame{}, relevant: relevant, cw: map[*ssa.Function]map[*ssa.Alloc]bool{}}
+func c18BuildGraph(p *Prog, tt *c18Terms, fn *ssa.Function, relevant func(*ssa.Function) bool, funcFields map[string]*ssa.Function, ifaceFields map[string]types.Type, stateTypes map[string]bool) *c18Graph {
+	g := &c18Graph{stateTypes: stateTypes, mattersMemo: map[*ssa.Function]bool{}, counters: map[*ssa.Function]map[*ssa.BasicBlock][]*c18Counter{}, funcFields: funcFields, ifaceFields: ifaceFields, p: p, tt: tt, index: map[string]*c18Node{}, frameOf: map[string]*c18Frame{}, relevant: relevant, cw: map[*ssa.Function]map[*ssa.Alloc]bool{}}
+	tt.g = g
 	g.root = &c18Frame{fn: fn, env: c18Env{}}
 	g.frames = append(g.frames, g.root)
 	if len(fn.Blocks) == 0 {
 		return g
 	}
-	g.entry = g.node(g.root, fn.Blocks[0].Instrs[0], false, nil, false)
+	g.entry = g.node(g.root, fn.Blocks[0].Instrs[0], false, c18Tag{})
 	// expand
 	for i := 0; i < len(g.nodes); i++ {
 		g.expand(g.nodes[i])
@@ -463,12 +510,12 @@ func c18BuildGraph(p *Prog, tt *c18Terms, fn *ssa.Function, relevant func(*ssa.F
 	return g
 }
 
-func (g *c18Graph) node(fr *c18Frame, in ssa.Instruction, post bool, tagCall *ssa.Call, tagNil bool) *c18Node {
-	key := fmt.Sprintf("%d|%p|%v|%p|%v", fr.id, in, post, tagCall, tagNil)
+func (g *c18Graph) node(fr *c18Frame, in ssa.Instruction, post bool, tag c18Tag) *c18Node {
+	key := fmt.Sprintf("%d|%p|%v|%s", fr.id, in, post, tag.key())
 	if n, ok := g.index[key]; ok {
 		return n
 	}
-	n := &c18Node{id: len(g.nodes), fr: fr, in: in, post: post, tagCall: tagCall, tagNil: tagNil}
+	n := &c18Node{id: len(g.nodes), fr: fr, in: in, post: post, tag: tag}
 	g.index[key] = n
 	g.nodes = append(g.nodes, n)
 	return n
@@ -521,7 +568,76 @@ func (g *c18Graph) argRelevant(fr *c18Frame, call *ssa.Call) bool {
 	return false
 }
 
+// matters: f (or something it runs: static callees, closures, calls through construction-time func /
+// single-implementation interface fields) touches the file system or reads/writes the writer's state.
+func (g *c18Graph) matters(f *ssa.Function, seen map[*ssa.Function]bool) bool {
+	if v, ok := g.mattersMemo[f]; ok {
+		return v
+	}
+	if seen[f] {
+		return false
+	}
+	seen[f] = true
+	found := false
+	allInstrs(f, func(in ssa.Instruction) {
+		if found {
+			return
+		}
+		switch x := in.(type) {
+		case *ssa.FieldAddr:
+			if g.stateTypes[fieldIDOfAddr(x).Type] {
+				found = true
+			}
+		case *ssa.Field:
+			if g.stateTypes[fieldIDOfField(x).Type] {
+				found = true
+			}
+		case ssa.CallInstruction:
+			if obj := calleeObj(x); obj != nil && obj.Pkg() != nil {
+				if _, ok := c18Mutators[c18FullName(obj)]; ok {
+					found = true
+					return
+				}
+			}
+			var t *ssa.Function
+			cc := x.Common()
+			if s := staticCallee(x); s != nil {
+				t = s
+			} else if id, _, ok := fieldOfValue(cc.Value); ok {
+				if cc.IsInvoke() {
+					if ct := g.ifaceFields[id.String()]; ct != nil && cc.Method != nil {
+						t = g.p.SSA.LookupMethod(ct, cc.Method.Pkg(), cc.Method.Name())
+					}
+				} else {
+					t = g.funcFields[id.String()]
+				}
+			}
+			if t != nil {
+				if obj, ok := t.Object().(*types.Func); ok {
+					if _, isMut := c18Mutators[c18FullName(obj)]; isMut {
+						found = true
+						return
+					}
+				}
+				if (g.p.InModule(t) || t.Synthetic != "") && len(t.Blocks) > 0 && g.matters(t, seen) {
+					found = true
+				}
+			}
+		}
+	})
+	for _, a := range f.AnonFuncs {
+		if !found && g.matters(a, seen) {
+			found = true
+		}
+	}
+	g.mattersMemo[f] = found
+	return found
+}
+
 func (g *c18Graph) isRelevant(f *ssa.Function) bool {
+	if g.stateTypes != nil {
+		return g.matters(f, map[*ssa.Function]bool{})
+	}
 	if f.Synthetic != "" && !g.p.InModule(f) {
 		// wrapper: relevant if what it calls is
 		rel := false
@@ -537,8 +653,9 @@ func (g *c18Graph) isRelevant(f *ssa.Function) bool {
 	return g.relevant(f)
 }
 
-func (g *c18Graph) childFrame(fr *c18Frame, call *ssa.Call, f *ssa.Function) *c18Frame {
-	key := fmt.Sprintf("%d|%p", fr.id, call)
+func (g *c18Graph) childFrame(n *c18Node, call *ssa.Call, f *ssa.Function) *c18Frame {
+	fr := n.fr
+	key := fmt.Sprintf("%d|%p|%s", fr.id, call, n.tag.key())
 	if c, ok := g.frameOf[key]; ok {
 		return c
 	}
@@ -546,7 +663,7 @@ func (g *c18Graph) childFrame(fr *c18Frame, call *ssa.Call, f *ssa.Function) *c1
 	for k, v := range fr.env {
 		env[k] = v
 	}
-	g.tt.enter(fr)
+	g.tt.enterNode(n)
 	args := call.Call.Args
 	if call.Call.IsInvoke() {
 		args = append([]ssa.Value{call.Call.Value}, args...)
@@ -585,8 +702,8 @@ func (g *c18Graph) retKind(n *c18Node) (kind string, val ssa.Value) {
 	}
 	kind = c18ReturnErrKind(ret, g.closureWrites(n.fr.fn))
 	val = c18RetRoot(ret, g.closureWrites(n.fr.fn))
-	if kind == "unknown" && n.tagCall != nil && val != nil && val == c18ErrValue(n.tagCall) {
-		if n.tagNil {
+	if kind == "unknown" && n.tag.call != nil && n.tag.nilness != 0 && val != nil && val == c18ErrValue(n.tag.call) {
+		if n.tag.nilness == 1 {
 			kind = "nil"
 		} else {
 			kind = "nonnil"
@@ -601,45 +718,59 @@ func (g *c18Graph) expand(n *c18Node) {
 	}
 	fr := n.fr
 	blk := n.in.Block()
-	next := func(from *c18Node, tagCall *ssa.Call, tagNil bool) {
+	next := func(from *c18Node, tag c18Tag) {
 		i := instrIndex(from.in)
 		if i+1 < len(blk.Instrs) {
-			g.edge(from, g.node(fr, blk.Instrs[i+1], false, tagCall, tagNil), -1)
+			g.edge(from, g.node(fr, blk.Instrs[i+1], false, tag), -1)
 		}
+	}
+	// the tag does not survive a loop header (it would multiply the loop) nor a back edge
+	tagInto := func(to *ssa.BasicBlock) c18Tag {
+		if n.tag.call == nil {
+			return n.tag
+		}
+		for _, p := range to.Preds {
+			if to.Dominates(p) {
+				return c18Tag{}
+			}
+		}
+		return n.tag
 	}
 	switch in := n.in.(type) {
 	case *ssa.Call:
 		if n.post {
-			next(n, n.tagCall, n.tagNil)
+			next(n, n.tag)
 			return
 		}
 		if f := g.callee(fr, in); f != nil && (g.isRelevant(f) || g.argRelevant(fr, in)) {
 			if g.inChain(fr, f) || fr.depth >= c18MaxDepth {
 				g.unknown = append(g.unknown, "call to "+FuncName(g.p, f)+" (recursive or nested too deeply to expand)")
 			} else {
-				c := g.childFrame(fr, in, f)
-				g.edge(n, g.node(c, f.Blocks[0].Instrs[0], false, nil, false), -1)
+				c := g.childFrame(n, in, f)
+				g.edge(n, g.node(c, f.Blocks[0].Instrs[0], false, c18Tag{}), -1)
 				return
 			}
 		}
-		next(n, n.tagCall, n.tagNil)
+		next(n, n.tag)
 	case *ssa.Jump:
-		g.edge(n, g.node(g.enterBlock(fr, blk.Succs[0]), blk.Succs[0].Instrs[0], false, n.tagCall, n.tagNil), -1)
+		g.edge(n, g.node(g.enterBlock(fr, blk, blk.Succs[0]), blk.Succs[0].Instrs[0], false, tagInto(blk.Succs[0])), -1)
 	case *ssa.If:
-		// header test of an unrolled loop: the index is known, only one branch is feasible
+		// a test on loop counters whose values are known: only one branch is feasible
 		only := -1
-		var w *c18WalkInfo
-		if x := g.walksOf(fr.fn)[blk]; x != nil && x.ifi == in {
-			if k, ok := fr.iter[x.phi]; ok {
-				w = x
-				if truth, ok := c18EvalCond(in.Cond, fr.iter); ok && k <= c18MaxUnroll+2 {
-					only = 1
-					if truth {
-						only = 0
-					}
-				} else {
-					g.unknown = append(g.unknown, "a counted loop over a literal slice that could not be unrolled")
-					return
+		if len(fr.iter) > 0 || len(g.countersOf(fr.fn)) > 0 {
+			if truth, ok := g.evalCond(fr, in.Cond, fr.iter); ok {
+				only = 1
+				if truth {
+					only = 0
+				}
+			}
+		}
+		// a test of a result of the expanded call control came back from: decided by the return site
+		if only < 0 {
+			if truth, ok := g.evalTagCond(n, in.Cond); ok {
+				only = 1
+				if truth {
+					only = 0
 				}
 			}
 		}
@@ -659,26 +790,13 @@ func (g *c18Graph) expand(n *c18Node) {
 				}
 				isNil = cmp.Op == token.EQL
 			}
-			tc, tn := n.tagCall, n.tagNil
-			if val != nil && n.tagCall != nil && val == c18ErrValue(n.tagCall) {
-				if isNil != n.tagNil {
+			if val != nil && n.tag.call != nil && n.tag.nilness != 0 && val == c18ErrValue(n.tag.call) {
+				if isNil != (n.tag.nilness == 1) {
 					continue // infeasible: the callee returned the other kind on this path
 				}
-				tc, tn = nil, false // consumed
 			}
-			tf := fr
-			if w != nil && !w.blocks[blk.Succs[b]] {
-				// leaving the unrolled loop: its index is no longer bound
-				rest := map[*ssa.Phi]int64{}
-				for ph, v := range fr.iter {
-					if ph != w.phi {
-						rest[ph] = v
-					}
-				}
-				tf = g.iterFrame(fr, rest)
-			}
-			tf = g.enterBlock(tf, blk.Succs[b])
-			e := g.edge(n, g.node(tf, blk.Succs[b].Instrs[0], false, tc, tn), b)
+			tf := g.enterBlock(fr, blk, blk.Succs[b])
+			e := g.edge(n, g.node(tf, blk.Succs[b].Instrs[0], false, tagInto(blk.Succs[b])), b)
 			if val != nil {
 				e.hasFact, e.factFr, e.factVal, e.factNil = true, fr, val, isNil
 			}
@@ -689,6 +807,20 @@ func (g *c18Graph) expand(n *c18Node) {
 		split := false
 		if kind == "unknown" {
 			kinds, split = []string{"nil", "nonnil"}, true
+		}
+		// the return site is remembered only when the callee has several (a single one tells nothing more)
+		var site *c18Node
+		nret := 0
+		for _, b := range fr.fn.Blocks {
+			if b.Index != 0 && len(b.Preds) == 0 {
+				continue // unreachable (recover block)
+			}
+			if _, ok := b.Instrs[len(b.Instrs)-1].(*ssa.Return); ok {
+				nret++
+			}
+		}
+		if nret > 1 {
+			site = n
 		}
 		for _, k := range kinds {
 			var to *c18Node
@@ -702,12 +834,17 @@ func (g *c18Graph) expand(n *c18Node) {
 					to.uncertain = true
 				}
 			} else {
+				tag := c18Tag{call: fr.site, ret: site}
 				switch k {
-				case "nil", "nonnil":
-					to = g.node(fr.parent, fr.site, true, fr.site, k == "nil")
-				default:
-					to = g.node(fr.parent, fr.site, true, nil, false)
+				case "nil":
+					tag.nilness = 1
+				case "nonnil":
+					tag.nilness = 2
 				}
+				if tag.ret == nil && tag.nilness == 0 {
+					tag = c18Tag{}
+				}
+				to = g.node(fr.parent, fr.site, true, tag)
 			}
 			e := g.edge(n, to, -1)
 			if split && val != nil {
@@ -716,8 +853,80 @@ func (g *c18Graph) expand(n *c18Node) {
 		}
 	case *ssa.Panic:
 	default:
-		next(n, n.tagCall, n.tagNil)
+		next(n, n.tag)
 	}
+}
+
+// tagValue: v, read in the caller under the node's tag, is result i of the expanded call: the value
+// returned at the remembered return site (a value of the callee frame), or nil.
+func (g *c18Graph) tagValue(n *c18Node, v ssa.Value) ssa.Value {
+	if n.tag.call == nil || n.tag.ret == nil {
+		return nil
+	}
+	ret := n.tag.ret.in.(*ssa.Return)
+	v = c18Root(v)
+	switch x := v.(type) {
+	case *ssa.Extract:
+		if x.Tuple == ssa.Value(n.tag.call) && x.Index < len(ret.Results) {
+			return ret.Results[x.Index]
+		}
+	case *ssa.Call:
+		if x == n.tag.call && len(ret.Results) == 1 {
+			return ret.Results[0]
+		}
+	}
+	return nil
+}
+
+// evalTagCond decides a branch condition on results of the expanded call from the return site:
+// a bool flag, or a comparison of an enum/int/string result with a constant.
+func (g *c18Graph) evalTagCond(n *c18Node, cond ssa.Value) (truth, ok bool) {
+	if n.tag.call == nil || n.tag.ret == nil {
+		return false, false
+	}
+	neg := false
+	for {
+		if u, isU := cond.(*ssa.UnOp); isU && u.Op == token.NOT {
+			cond, neg = u.X, !neg
+			continue
+		}
+		break
+	}
+	konst := func(v ssa.Value) *ssa.Const {
+		if c, ok := v.(*ssa.Const); ok {
+			return c
+		}
+		if rv := g.tagValue(n, v); rv != nil {
+			c, _ := rv.(*ssa.Const)
+			return c
+		}
+		return nil
+	}
+	if rv := g.tagValue(n, cond); rv != nil {
+		if c, isC := rv.(*ssa.Const); isC && c.Value != nil && c.Value.Kind() == constant.Bool {
+			return constant.BoolVal(c.Value) != neg, true
+		}
+		return false, false
+	}
+	if bo, isB := cond.(*ssa.BinOp); isB && (bo.Op == token.EQL || bo.Op == token.NEQ) {
+		if g.tagValue(n, bo.X) == nil && g.tagValue(n, bo.Y) == nil {
+			return false, false
+		}
+		a, b := konst(bo.X), konst(bo.Y)
+		if a == nil || b == nil || a.Value == nil || b.Value == nil {
+			// nil constants: a.IsNil etc.
+			if a != nil && b != nil && a.Value == nil && b.Value == nil {
+				return (bo.Op == token.EQL) != neg, true
+			}
+			return false, false
+		}
+		if a.Value.Kind() != b.Value.Kind() {
+			return false, false
+		}
+		eq := constant.Compare(a.Value, token.EQL, b.Value)
+		return (eq == (bo.Op == token.EQL)) != neg, true
+	}
+	return false, false
 }
 
 func c18IsErrorType(v ssa.Value) bool {
